@@ -48,6 +48,9 @@ def make_datagram(sim, src, ptype, payload, pn=None, pad_to=None, **kw):
 
 
 def inject(sim, src, ptype, payload, tag, **kw):
+    pn = kw.get("pn")
+    if pn is None:
+        pn = sim.eps[src]._packet_number
     raw = make_datagram(sim, src, ptype, payload, pad_to=1200 if (ptype == "initial" and src == "c") else None, **kw)
     if raw is None:
         return False
@@ -55,8 +58,13 @@ def inject(sim, src, ptype, payload, tag, **kw):
     if dst not in sim.eps:
         raise MachineryError("hostile inject before the peer exists")
     addr = sim.caddr if src == "c" else ("10.0.0.2", 4433)
-    sim.ev("inject", src=src, ptype=ptype, tag=tag, plen=len(payload))
+    rec = sim.ev("inject", src=src, ptype=ptype, tag=tag, plen=len(payload), pn=pn, accepted=False)
     sim.inject(dst, raw, addr, tag)
+    # did the receiver authenticate and process the packet?  (internal read: the packet number is queued for acknowledgement)
+    T = sim.A["tls"].Epoch
+    ep_ = {"initial": T.INITIAL, "handshake": T.HANDSHAKE, "0rtt": T.ONE_RTT, "1rtt": T.ONE_RTT}[ptype]
+    space = sim.eps[dst]._spaces.get(ep_) if hasattr(sim.eps[dst], "_spaces") else None
+    rec["accepted"] = bool(space is not None and pn in space.ack_queue)
     return True
 
 
